@@ -677,8 +677,13 @@ def c16(run):
             "complement_pair": lambda r: r.get("op") == "incl" and r["res"] and r["a"].get("k") == "not" and r["b"].get("k") == "not",
             "union_rhs_true": lambda r: r.get("op") == "incl" and r["res"] and r["b"].get("k") == "alt"}
     run.validate("c16_incl", os.path.join(out, "c16_incl.ndjson"), "Trace_Regex", "Trace_Regex.cfg",
-                 ["C16:", "included_in"], workers=workers(run), nontrivial=nt, need=need, timeout=1500)
+                 ["C16:", "included_in"], workers=workers(run), nontrivial=nt, need=need, timeout=1500,
+                 note_prefixes=("RULES:",))
     run.extra["driver"] = info
+    if run.tier == "thorough":
+        run.model("MC_SubLang", "MC_SubLang.cfg", workers=workers(run), timeout=3000,
+                  note="the transcribed syntactic inclusion test (Constructors!SubLangN) is sound on 7.3 million pairs: "
+                       "concatenations of <= 4 factors against concatenations of <= 5 factors, and all pairs of depth-<=1 terms")
 
 
 @check("C10")
@@ -772,7 +777,7 @@ def all_u1(ids):
     models = [("MC_Chars", "MC_Chars.cfg"), ("MC_Regex", "MC_Regex.cfg"), ("MC_Literals", "MC_Literals.cfg"),
               ("MC_Strings", "MC_Strings.cfg"), ("MC_LoopRanges", "MC_LoopRanges.cfg"), ("MC_Dfa", "MC_Dfa.cfg"),
               ("MC_PartGen", "MC_PartGen.cfg"), ("MC_Builder", "MC_Builder.cfg"), ("MC_Manager", "MC_Manager.cfg"),
-              ("MC_Hopcroft", "MC_Hopcroft.cfg"), ("MC_Components", "MC_Components.cfg"), ("MC_Terms", "MC_Terms.cfg"), ("MC_Rules", "MC_Rules.cfg"), ("MC_HashCons", "MC_HashCons.cfg"), ("MC_CoverSearch", "MC_CoverSearch.cfg"), ("MC_MergeSweep", "MC_MergeSweep.cfg"), ("MC_Constructors", "MC_Constructors.cfg")]
+              ("MC_Hopcroft", "MC_Hopcroft.cfg"), ("MC_Components", "MC_Components.cfg"), ("MC_Terms", "MC_Terms.cfg"), ("MC_Rules", "MC_Rules.cfg"), ("MC_HashCons", "MC_HashCons.cfg"), ("MC_CoverSearch", "MC_CoverSearch.cfg"), ("MC_MergeSweep", "MC_MergeSweep.cfg"), ("MC_Constructors", "MC_Constructors.cfg"), ("MC_SubLang", "MC_SubLang.cfg")]
     bad = 0
     for m, c in models:
         if ids and m not in ids:
